@@ -47,6 +47,12 @@ def _ops():
         # an object equal to the held one but not identical with it (a fresh list / int / str of the same value)
         st.tuples(st.just("set_equal"), _i, st.sampled_from([0, 2, 3, 4]), st.sampled_from(["attr", "update"])),
         st.tuples(st.just("cls_set"), st.integers(0, 2), st.integers(0, 4), _o),
+        # the same through Cls.param.update / the deprecated Cls.param.set_default
+        st.tuples(st.just("cls_set"), st.integers(0, 2), st.integers(0, 4), _o, st.sampled_from(["update", "set_default"])),
+        # two instances made inside a shared_parameters() block (they share what is copied for them; constants are theirs all the same)
+        st.tuples(st.just("new_shared"), st.integers(0, 2)),
+        # a temporary update() of the ordinary parameter ic; ic is made constant on the instance before the block is left
+        st.tuples(st.just("updctx_freeze"), _i, _o),
         st.tuples(st.just("enter"), _i),
         st.tuples(st.just("exit"), st.booleans()),
         # a watcher of the `constant` flag itself (what='constant') that raises when the flag is lowered / raised
@@ -297,6 +303,42 @@ def execute(case):
             insts.append({"obj": o, "held": held, "foreign": bool(stack)})
             if stack:
                 res.label("created_inside_block")
+        elif kind == "new_shared":
+            if stack:
+                continue
+            cls = classes[op[1]]
+            with param.shared_parameters():
+                made = [cls(), cls()]
+            for o in made:
+                held = {"c": o.c, "r": cls.r, "name": o.name, "cn": o.cn, "cs": o.cs, "ic": cls.ic, "ca": o.ca}
+                insts.append({"obj": o, "held": held, "foreign": False})
+            state["copy"] = True
+            res.label("created_inside_shared_parameters")
+        elif kind == "updctx_freeze":
+            if not insts or stack:
+                continue
+            idx = op[1] % len(insts)
+            rec = insts[idx]
+            if rec.get("iconst"):
+                continue
+            o = rec["obj"]
+            cm = o.param.update(ic=objs[op[2]])
+            cm.__enter__()
+            o.param.ic.constant = True
+            rec["iconst"] = True
+            rec["held"]["ic"] = o.ic
+            try:
+                cm.__exit__(None, None, None)
+            except TypeError:
+                pass
+            except _Boom as e:
+                res.fail("C14.constant_rebound", f"{tag}: leaving the update() context touched the constant flags of inst{idx} ({e})")
+            if o.ic is not rec["held"]["ic"]:
+                res.fail("C14.constant_rebound", f"{tag}: leaving the update() context rebound ic of inst{idx}, which had been made "
+                                                 f"constant inside the block (now {o.ic!r})")
+                rec["held"]["ic"] = o.ic
+            state["copy"] = True
+            res.label("parameter_made_constant_inside_update_context")
         elif kind in ("set", "set_same", "set_equal"):
             if not insts:
                 continue
@@ -466,11 +508,22 @@ def execute(case):
             cls = classes[op[1]]
             n = ["c", "r", "cn", "cs", "name"][op[2]]
             v = val_for(n, op[3])
+            route_ = op[4] if len(op) > 4 else "attr"
             try:
-                setattr(cls, n, v)
+                if route_ == "update":
+                    cls.param.update(**{n: v})
+                elif route_ == "set_default":
+                    import warnings
+                    with warnings.catch_warnings():
+                        warnings.simplefilter("ignore")
+                        cls.param.set_default(n, v)
+                else:
+                    setattr(cls, n, v)
                 raised = None
             except TypeError as e:
                 raised = e
+            if route_ != "attr":
+                res.label("class_level_set_via_" + route_)
             if n == "r":
                 if raised is None:
                     res.fail("C14.readonly_class_assigned", f"{tag}: readonly parameter assigned at class level")
